@@ -73,7 +73,7 @@ def check(pid, tier, seed):
     races, ran, hangs = {}, {}, []
     env = dict(C.GOENV, GORACE="halt_on_error=0 history_size=3")
     for name, args in runs:
-        r = C.run([C.HARNESS_RACE] + args, cwd=d, env=env, timeout=3600)
+        r = C.run([C.HARNESS_RACE] + args, cwd=d, env=env, timeout=C.engine_timeout())
         out = r.stdout or ""
         ran[name] = out.count("WARNING: DATA RACE")
         for k, ex in summarise(out).items():
